@@ -27,7 +27,9 @@ NF == Len(Flavs)
 \* APP0 = an application-data record of length zero
 \* NOCERT = the warning alert no_certificate(41): SSLv3's way of saying "I have no certificate" (RFC 6101, 5.4.2);
 \*          from TLS 1.0 on an empty Certificate message says that and the alert has no place in a handshake
-Fab == {"HREQ", "SHD", "NST", "CCS", "APP", "KU", "CR", "APP0", "NOCERT"}
+\* JUNK   = an application_data record of 100 arbitrary bytes that no key of the connection protects (admissible
+\*          nowhere: in particular a PSK offer without early_data gives a server no licence to skip it)
+Fab == {"HREQ", "SHD", "NST", "CCS", "APP", "KU", "CR", "APP0", "NOCERT", "JUNK"}
 
 VARIABLES fi,      \* flavour index
           script,  \* sequence of edits applied so far: <<op, k, t>>
